@@ -17,7 +17,8 @@ Inductive basic :=
 | BOk          (* Basic base64(id:secret), both parts percent-decodable *)
 | BBadId       (* client id part holds a malformed escape (%zz) *)
 | BBadSecret   (* secret part holds a malformed escape *)
-| BMalformed.  (* not "Basic <base64 with colon>": r.BasicAuth() reports !ok *)
+| BMalformed   (* not "Basic <base64 with colon>": r.BasicAuth() reports !ok *)
+| BEmptySecret. (* Basic base64(id:) - a client id with an empty password *)
 
 Inductive endpoint :=
 | ECode | ERefresh | EClientCred | EJwtProfile | ETokenExchange | EDeviceToken   (* token endpoint, by grant_type *)
@@ -73,7 +74,11 @@ Definition chk (ok : bool) (st : nat) (c : errcode) : check := if ok then CPass 
 Definition basic_escape_ok (b : basic) : bool :=
   match b with BBadId | BBadSecret => false | _ => true end.
 Definition basic_present (b : basic) : bool :=
-  match b with BOk | BBadId | BBadSecret => true | _ => false end.
+  match b with BOk | BBadId | BBadSecret | BEmptySecret => true | _ => false end.
+(* a non-empty secret arrived; an empty one never authenticates (op.ClientBasicAuth,
+   op.AuthorizeClientIDSecret refuse it before asking the storage) *)
+Definition has_secret (b : basic) : bool :=
+  match b with BOk => true | _ => false end.
 
 Definition is_token_grant (e : endpoint) : bool :=
   match e with ECode | ERefresh | EClientCred | EJwtProfile | ETokenExchange | EDeviceToken => true | _ => false end.
@@ -93,6 +98,7 @@ Section Handlers.
   Definition client_id_from_request (form_seen_ok : bool) (b : basic) (cid : bool) : list check :=
     [chk form_seen_ok 400 EInvalidRequest;
      chk (basic_escape_ok b) 401 EInvalidClient;
+     chk (negb (basic_present b) || has_secret b) 400 EUnauthorizedClient;   (* ClientBasicAuth: empty client secret *)
      chk (basic_present b || cid) 401 EInvalidClient].
 
   (* handler functions of the Provider router; [fs] = the form error is still visible to the
@@ -104,15 +110,17 @@ Section Handlers.
     | ERefresh => [parse_step form true (sh_basic s); chk (sh_key s) 400 EInvalidRequest]
     | EClientCred => [parse_step form true (sh_basic s)]
     | EJwtProfile => [parse_step form false (sh_basic s); chk (sh_key s) 400 EServerError]
-    | ETokenExchange => [parse_step form true (sh_basic s); chk (sh_key s) 400 EInvalidRequest]
+    | ETokenExchange => [parse_step form true (sh_basic s); chk (sh_key s) 400 EInvalidRequest;
+                         chk (has_secret (sh_basic s)) 401 EInvalidClient]   (* AuthorizeClientIDSecret: no / empty secret *)
     | EDeviceToken => client_id_from_request form (sh_basic s) (sh_client_id s)
     | ENoGrant => [CFail 400 EInvalidRequest true]
     | EUnknownGrant => [CFail 400 EUnsupportedGrantType true]
     | ERevoke => [chk form 400 EInvalidRequest; chk (basic_escape_ok (sh_basic s)) 401 EInvalidClient;
+                  chk (negb (basic_present (sh_basic s)) || has_secret (sh_basic s)) 401 EInvalidClient;
                   chk (basic_present (sh_basic s) || sh_client_id s) 401 EInvalidClient]
     | EIntrospect =>   (* every refusal is http.Error(401) *)
         [chk form 401 ENoCode; chk (basic_escape_ok (sh_basic s)) 401 ENoCode;
-         chk (basic_present (sh_basic s)) 401 ENoCode]
+         chk (has_secret (sh_basic s)) 401 ENoCode]
     | EDeviceAuthz => client_id_from_request form (sh_basic s) (sh_client_id s)
     | EEndSession => [chk form 500 ENoCode; chk (negb (sh_key s)) 400 EInvalidRequest]
     | EUserinfo => [CFail 401 ENoCode true]     (* no / garbage token: always refused before storage *)
@@ -131,7 +139,7 @@ Section Handlers.
     | EJwtProfile => [chk (sh_form_ok s) 400 EInvalidRequest; chk (sh_key s) 400 EInvalidRequest]
     | ENoGrant => [chk (sh_form_ok s) 400 EInvalidRequest; CFail 400 EInvalidRequest true]
     | EUnknownGrant => [chk (sh_form_ok s) 400 EInvalidRequest; CFail 400 EUnsupportedGrantType true]
-    | EIntrospect => ws_client s ++ [chk (basic_present (sh_basic s)) 400 EInvalidClient; chk (sh_key s) 400 EInvalidRequest]
+    | EIntrospect => ws_client s ++ [chk (has_secret (sh_basic s)) 400 EInvalidClient; chk (sh_key s) 400 EInvalidRequest]
     | EEndSession => [chk (sh_form_ok s) 400 EInvalidRequest; chk (negb (sh_key s)) 400 EInvalidRequest]
     | EUserinfo => [chk (sh_form_ok s) 400 EInvalidRequest;
                     if sh_key s then CFail 401 EAccessDenied true else CFail 401 EInvalidRequest true]
